@@ -211,6 +211,8 @@ static void explore(GSubject S, int nev, int ncv, int rot, Local& L, const std::
     ops.push_back(op_compute(r1, 1, 1e-6L, SYM_SORT[(rot + 1) % 4]));
     ops.push_back(op_compute(r0, 0, 1e-10L, SYM_SORT[(rot + 2) % 4]));
     if (PROP == "C06") ops.push_back(op_share(1, r0, THOROUGH ? 1000 : 300, 1e-10L, SYM_SORT[rot % 4]));
+    // an earlier compute() that throws at its very end (sorting rule the solver does not support)
+    if (PROP == "C06") ops.push_back(op_compute(r0, 5, 1e-10L, SortRule::LargestImag));
     if (PROP != "C03")
     {
         // C05 / C06 for the generalized solvers: the shared bookkeeping / rerun oracles of engine/e1.h
